@@ -7,6 +7,7 @@ import (
 	"fmt"
 	"math"
 	"sort"
+	"strings"
 	"time"
 
 	"github.com/mandykoh/prism/cielab"
@@ -185,7 +186,54 @@ func runC13(r *core.Run) {
 			return
 		}
 	}
+	if strings.Contains(r.Variant, "mutwhite") {
+		// a program may assign to the exported variables ciexyz.D50 / ciexyz.D65 (they are plain
+		// variables) and convert relative to them afterwards: the white passed is then simply another
+		// positive white. Done in a process of its own; the variables are put back at the end.
+		old50, old65 := ciexyz.D50, ciexyz.D65
+		defer func() { ciexyz.D50, ciexyz.D65 = old50, old65 }()
+		var n int64
+		for _, nw := range [][2][3]float32{{{0.9, 1, 0.7}, {1, 1, 1}}, {{0.95047, 1, 1.08883}, {0.9642, 1, 0.8251}}, {{96.42, 100, 82.51}, {0.5, 0.5, 0.5}}, {{1.0985, 1, 0.35585}, {0.8, 0.9, 0.4}}} {
+			ciexyz.D50 = ciexyz.Color{X: nw[0][0], Y: nw[0][1], Z: nw[0][2]}
+			ciexyz.D65 = ciexyz.Color{X: nw[1][0], Y: nw[1][1], Z: nw[1][2]}
+			for _, w := range [][3]float32{nw[0], nw[1]} {
+				for _, in := range [][3]float32{w, {w[0] / 2, w[1] / 2, w[2] / 2}, {0.2, 0.3, 0.4}, {0.9642, 1, 0.8251}, {0.95047, 1, 1.08883}, {0.004, 0.002, 0.006}, {30, 40, 50}} {
+					n++
+					if kind, msg, _, _ := c13XYZ(in, w); kind != "" {
+						r.Violate("xyz", kind+"/reassigned-constant", msg+fmt.Sprintf(" (ciexyz.D50 and ciexyz.D65 had been assigned %v and %v before)", nw[0], nw[1]), c13Case{Kind: kind, White: w, In: in})
+					}
+				}
+				lab, _ := c13ToLab(w, w)
+				if !(math.Abs(float64(lab.L)-100) <= 1e-3 && math.Abs(float64(lab.A)) <= 1e-3 && math.Abs(float64(lab.B)) <= 1e-3) {
+					r.Violate("xyz", "white/reassigned-constant", fmt.Sprintf("white %v converted relative to itself gives %v (ciexyz.D50 and ciexyz.D65 had been assigned %v and %v before)", w, lab, nw[0], nw[1]), c13Case{Kind: "forward", White: w, In: w})
+				}
+			}
+		}
+		r.AddEvals(n)
+		return
+	}
 	ws := c13Whites(r, nw)
+	// whites and colours with a pattern in their components (two or three bitwise equal, a colour
+	// component equal to the white's): a shortcut that reuses one term for another shows only here
+	{
+		pw := [][3]float32{{0.9, 1, 0.9}, {1, 1, 0.8}, {0.8, 1, 1}, {1, 1, 1}, {0.5, 0.5, 0.5}, {0.9642, 0.9642, 0.8251}, {1.2, 0.7, 1.2}, {100, 100, 82}, {95, 100, 95}}
+		pc := [][3]float32{{0.3, 0.5, 0.5}, {0.5, 0.5, 0.3}, {0.5, 0.3, 0.5}, {0.5, 0.5, 0.5}, {0.3, 0.3, 0.3}, {0.004, 0.004, 0.3}, {0.3, 0.004, 0.004}, {0.004, 0.3, 0.004}, {0.9, 0.5, 0.9}, {1, 0.5, 0.25}, {0.0088, 0.0088, 0.0089}, {0.2, 0.4, 0.6}}
+		var n int64
+		for _, w := range pw {
+			cols := append([][3]float32{}, pc...)
+			// the white's own components, permuted and mixed with others; and the patterns on the white's scale
+			cols = append(cols, [3]float32{w[0], w[1], w[2]}, [3]float32{w[2], w[1], w[0]}, [3]float32{w[0], 0.5 * w[1], w[2]}, [3]float32{w[1], w[1], w[1]}, [3]float32{0.3 * w[1], 0.5 * w[1], 0.5 * w[1]}, [3]float32{0.5 * w[1], 0.5 * w[1], 0.3 * w[1]})
+			for _, in := range cols {
+				n++
+				if kind, msg, _, _ := c13XYZ(in, w); kind != "" {
+					r.Violate("xyz", kind+"/patterned", msg, c13Case{Kind: kind, White: w, In: in})
+				}
+			}
+		}
+		r.AddEvals(n)
+		r.NTCount(n)
+		r.Obs("patterned_white_colour_cases", n)
+	}
 	var maxFwd, maxRT, maxInv float64
 	type acc struct{ f, rt, inv float64 }
 	const eps = 216.0 / 24389.0
@@ -507,7 +555,7 @@ func runC13(r *core.Run) {
 		maxFwd, maxRT = math.Max(maxFwd, a.f), math.Max(maxRT, a.rt)
 	}
 	if r.Variant == "" {
-		vs := append([]string{"warm@2"}, burstVariants...)
+		vs := append([]string{"warm@2", "mutwhite@2", "mutwhite@1"}, burstVariants...)
 		for _, v := range vs {
 			r.RunVariantChild(v, 5*time.Minute, false)
 		}
